@@ -13,16 +13,18 @@ import (
 type Decls struct {
 	order []string
 	decl  map[string]string // name -> full declaration command
+	index map[string]int    // name -> position in order
 	n     int
 }
 
 var freshSymRe = regexp.MustCompile(`![0-9]+(\)|\s|$)`)
 
-func NewDecls() *Decls { return &Decls{decl: map[string]string{}} }
+func NewDecls() *Decls { return &Decls{decl: map[string]string{}, index: map[string]int{}} }
 
 func (d *Decls) Const(name, sort string) Term {
 	if _, ok := d.decl[name]; !ok {
 		d.decl[name] = fmt.Sprintf("(declare-fun %s () %s)", name, sort)
+		d.index[name] = len(d.order)
 		d.order = append(d.order, name)
 	}
 	return Term{name, sort}
@@ -36,6 +38,7 @@ func (d *Decls) Fresh(prefix, sort string) Term {
 func (d *Decls) Fun(name string, args []string, ret string) {
 	if _, ok := d.decl[name]; !ok {
 		d.decl[name] = fmt.Sprintf("(declare-fun %s (%s) %s)", name, strings.Join(args, " "), ret)
+		d.index[name] = len(d.order)
 		d.order = append(d.order, name)
 	}
 }
@@ -43,6 +46,7 @@ func (d *Decls) Fun(name string, args []string, ret string) {
 func (d *Decls) Raw(name, cmd string) {
 	if _, ok := d.decl[name]; !ok {
 		d.decl[name] = cmd
+		d.index[name] = len(d.order)
 		d.order = append(d.order, name)
 	}
 }
